@@ -36,8 +36,6 @@ NEEDS = {
              "warms a memo cache whose key omits it.",
     "C20-c": "cache_dir shared between two specs that differ only in spec.variables (same arch/workload text).",
     # ---- second round (agents were told what the first round had produced, to get different mechanisms)
-    "C32-c": "unusual input: chunked dispatch whose leftover arithmetic drops the last jobs when len(jobs) % n_jobs > "
-             "len(jobs) // n_jobs (>= 6 workers, no pbar, list mode, len(jobs) > 4 * n_jobs), e.g. 8 workers x 39 jobs.",
     "C15-c": "unusual input: compressed index stored as uint16 sized by the group's own row count; a later small group "
              "whose running start offset lies beyond 65535 wraps onto rows of an earlier group (silently wrong details).",
     "C27-c": "two cooperating sites + history: a per-component record of the Einsum the costs were calculated for; a "
